@@ -6,6 +6,9 @@ let () =
     | "STORE" | "NET" | "READ" | "ATOM" -> Store.run
     | "PAGE" -> Page.run
     | "MAP" -> Mapsuite.run
+    | "ENGINE" | "FAULT" | "TERM" -> Enginesuite.run
+    | "TRANSPORT" -> Transportsuite.run
+    | "EXPAND" -> Expandsuite.run
     | s -> failwith ("unknown suite " ^ s) in
   try
     while true do
